@@ -23,6 +23,8 @@ FOCUS = {
   - the SHAPE of what is returned or passed on: tuple vs list vs dict returns of a DAG, single-element tuples, empty returns, None results, `unpack_to` / `twz_unpack_to` with 1 element or with a generator / list result, nested containers of results, results that are themselves tuples / dicts indexed several levels deep, keyword-only and defaulted parameters of the describing function, *args / **kwargs in node functions;
   - Python-level details: dataclass fields and their defaults, `__eq__` / `__hash__` of the library's own classes, mutable default arguments, shallow vs deep copies, `functools.wraps` / `update_wrapper` metadata, descriptors (`__get__`) and bound methods / staticmethods / lambdas / functools.partial / callable objects as node functions, generators and iterators consumed twice, `is` vs `==`, truthiness of `0` / `""` / empty containers / numpy-like objects whose `__bool__` raises;
   - resources of the PROCESS: thread pools and event loops that are not shut down, tasks that are left pending, threads created per node, recursion depth on long chains (1000 nodes), quadratic behaviour that turns into a hang for 2000 nodes - when this breaks the property as stated.""",
+    7: """This is the SEVENTH round for this property; single features have been covered thoroughly (see the list below). This round is about FEATURE INTERACTIONS: make a SMALL and SUBTLE change (ideally <= 6 changed lines) that is harmless for every feature on its own and only breaks the property when TWO (or three) features are combined - the combination must be legal and plausible. Features to combine: nested DAGs (a DAG called inside a DAG, several levels, the same inner DAG in two outer DAGs), reused functions (ids f, f<<1>>, ... also inside nested DAGs: prefixed ids), tags (decorator tag, twz_tag at the call site, tuple tags, tags on nodes of nested DAGs), selections by id / tag / node reference (executor target / exclude / root, setup(target_nodes), cache_deps_of, compose inputs / outputs, config keys) - in particular selecting nodes INSIDE a nested DAG by their prefixed id, setup nodes, debug nodes (RUN_DEBUG_NODES on and off), activation flags (constants, arguments, results, keyed results, and_/or_/not_ expressions), unpack_to / twz_unpack_to, operators on results, defaults of DAG parameters, keyword arguments, the three resources, is_sequential, priorities (compound priorities across nested DAGs), max_concurrency, AsyncDAG, executors (single use, results attribute), caching (cache_in / from_cache / cache_deps_of), compose, configuration reload (dict / yaml / json, by id / by tag), deep copies of DAGs, profiling of all nodes, failures (exceptions in nodes) and retries.
+Examples of the kind of interaction meant (do not use these literally): a setup node inside a nested DAG selected through an executor of the outer DAG; a debug node that carries a tag used in exclude_nodes; a flagged node whose result is unpacked by twz_unpack_to and cached; a composed DAG that is then re-configured by tag; profiling switched on while a node fails; a deep-copied DAG whose executor is started from the cache file of the original.""",
 }
 
 
